@@ -16,8 +16,8 @@ PROTO_SCENARIOS = [
     ("generator", ["generator"]),
 ]
 CLASS_SCENARIOS = {"queue": ["queue", "generator"], "limited_queue": ["queue"], "thread_pool": ["pool"],
-                   "scheduler": ["scheduler"], "publisher::queue": ["publisher"]}
-ALL_SCENARIOS = ["future_poll", "future_await", "future_compete", "mutex", "mutex_window", "queue", "pool", "scheduler", "publisher",
+                   "scheduler": ["scheduler", "scheduler_multi_start"], "publisher::queue": ["publisher"]}
+ALL_SCENARIOS = ["future_poll", "future_await", "future_compete", "mutex", "mutex_window", "queue", "pool", "scheduler", "scheduler_multi_start", "publisher",
                  "storage", "generator", "signal", "shared"]
 
 
